@@ -47,6 +47,9 @@ var c02MapTemplates = []string{
 	"{% capture c %}{% for kv in m %}{{ kv[0] }}{% endfor %}{% endcapture %}{{ c | upcase }}{% if m contains 'k1' %}T{% endif %}{{ m.k1 }}{{ m.size }}",
 	"{% for kv in m %}{% for kv2 in m %}{{ kv2[0] }}{% break %}{% endfor %}{% endfor %}",
 	"{{ nested.inner | join: ',' }}{% for kv in nested.inner %}{{ kv[0] }}{% endfor %}{{ nested }}",
+	// map entries that reach one another (a ring of struct pointers, each also holding the first): whatever is
+	// done per entry must not depend on which entry was visited first
+	"{{ ring | json }}|{{ ring }}|{% for kv in ring %}{{ kv[0] }}:{{ kv[1].Title }}>{{ kv[1].Next.Title }},{% endfor %}|{{ shared | json }}|{{ shared }}|{{ shared | inspect }}",
 }
 
 const c02IncName = "c02_included.liquid"
@@ -171,12 +174,25 @@ func c02BindingsK(n int, order []int, style int) map[string]any {
 		}
 		arr = append(arr, x)
 	}
+	ring, shared := map[string]*c02Node{}, map[string]any{}
+	nodes := make([]*c02Node, n)
+	for i := range nodes {
+		nodes[i] = &c02Node{Title: fmt.Sprintf("n%d", i+1)}
+	}
+	common := &c02Node{Title: "common", Next: &c02Node{Title: "tail"}}
+	for i := range nodes {
+		nodes[i].Next = nodes[(i+1)%n]
+	}
+	for _, i := range order {
+		ring[skey(i)] = nodes[i]
+		shared[skey(i)] = []any{common, &c02Node{Title: fmt.Sprintf("own%d", i+1), Next: common}}
+	}
 	// the top-level map itself is built in that order too
 	b := map[string]any{}
 	items := []struct {
 		k string
 		v any
-	}{{"m", m}, {"mi", mi}, {"km", liquid.IterationKeyedMap(km)}, {"ms", ms}, {"arr", arr}, {"nested", map[string]any{"inner": inner}}}
+	}{{"m", m}, {"mi", mi}, {"km", liquid.IterationKeyedMap(km)}, {"ms", ms}, {"arr", arr}, {"nested", map[string]any{"inner": inner}}, {"ring", ring}, {"shared", shared}}
 	for j := range items {
 		it := items[(j+order[0])%len(items)]
 		b[it.k] = it.v
@@ -563,6 +579,7 @@ func c02Families(tier string) []explore.Family {
 		r.Count("map_order_executions", int64(execs))
 	}})
 
+	fams = append(fams, c02AddrFamily())
 	// entry points x re-render x fresh parse x fresh engine x rebuilt bindings
 	if c02.pool == nil {
 		c02.pool = c02Pool()
